@@ -1,7 +1,7 @@
 (* C08 - eIds follow the naming convention and are stable under unrelated edits.
    Statements only; proofs in Proofs/EidConvention.v. *)
 Require Import BB.Base.Str BB.Base.Xml BB.Gen.TablesXml BB.Model.Eid BB.Model.EidSpec.
-Require Import BB.Proofs.EidConvention BB.Proofs.EidTop.
+Require Import BB.Proofs.EidConvention BB.Proofs.EidTop BB.Proofs.EidLocal.
 
 (* For every tree, prefix and generator state: every identified element's id is
    <prefix handed down>__<abbreviation>_<number part>, possibly followed by _k suffixes, where the
@@ -32,3 +32,13 @@ Theorem C08_stable_under_edit_partial : forall e1 e2 q pi1 pi2 labels tag1 a1 k1
   identifiable tag1 = true -> identifiable tag2 = true -> old_id a1 = old_id a2.
 Proof. exact eid_stable_under_edit. Qed.
 Print Assumptions C08_stable_under_edit_partial.
+
+(* Stability under unrelated edits, for whole subtrees: the ids given to a subtree under prefix q depend on
+   the generator state only through the keys under q (q itself or q__...).  An edit elsewhere in the
+   document changes the state the generator is in when it reaches the subtree, but if the two states agree
+   on those keys the subtree's ids - all of them - are the same. *)
+Theorem C08_subtree_ids_local : forall e q s t e' s1,
+  agree (under q) s t -> rewrite_eid e q s = Some (e', s1) ->
+  exists t1, rewrite_eid e q t = Some (e', t1) /\ agree (under q) s1 t1.
+Proof. intros e q s t e' s1. apply rewrite_eid_local. intros k Hk. exact Hk. Qed.
+Print Assumptions C08_subtree_ids_local.
